@@ -191,7 +191,7 @@ Theorem C01_path_hyps_discharged :
   forall (sortf : list Schedule.keyed -> Types.outcome (list Schedule.keyed)),
   (forall l, exists l', sortf l = Types.Ok l' /\ Permutation l' l) ->
   forall base maxshare (raw req : Types.wreq) orders nodes caps morder status need limit,
-  Types.wreq_validate raw = inr req -> NoDup (map fst nodes) -> 0 < base -> nodes_ok orders nodes ->
+  Types.wreq_validate raw = Datatypes.inr req -> NoDup (map fst nodes) -> 0 < base -> nodes_ok orders nodes ->
   plugin_caps sortf base maxshare req orders nodes = Types.Ok caps ->
   (forall k, 0 <= mget status k) ->
   Permutation (entries_of (fst (Capacity.manager_capacity caps))) morder ->
